@@ -19,6 +19,8 @@ RULE = ("case = (registration op sequence, filter, window set) run through coap_
         "distinct = distinct case lines")
 
 WORKERS = 4
+# exclusive UDP ports (no SO_REUSEADDR) and a frozen library clock: see harness/h_link.c
+WRAPS = ["setsockopt", "coap_ticks"]
 
 
 def par_run(exe, lines, env=None, timeout=1500):
@@ -386,7 +388,7 @@ def main(run):
         if not ok:
             run.violation("coqchk does not accept Properties_C20", out[-4000:], tag="coqchk", no_input=True)
     model = vlib.build_model()
-    drv = vlib.build_driver("h_link", ["h_link.c"])
+    drv = vlib.build_driver("h_link", ["h_link.c"], wraps=WRAPS)
     r = tie.rng_for(run, "c20")
 
     corpus = list(vlib.read_corpus("C20"))
@@ -428,7 +430,7 @@ def main(run):
             san_lines.append(gen_link.case_line("lfwk", ops, q, [(0, 7), (3, 0), (1, 4096)]))
         if run.tier == "quick":
             san_lines = san_lines[:len(corpus) + 500]
-        asan = vlib.build_driver("h_link", ["h_link.c"], variant="asan")
+        asan = vlib.build_driver("h_link", ["h_link.c"], variant="asan", wraps=WRAPS)
         env = {"ASAN_OPTIONS": "detect_leaks=0:abort_on_error=0:exitcode=99",
                "UBSAN_OPTIONS": "halt_on_error=1:exitcode=98"}
         osan, san_crashes = par_run(asan, san_lines, env=env)
@@ -456,6 +458,11 @@ def main(run):
             if osan[i].startswith("CRASH") or osan[i].startswith("<not run>"):
                 continue
             why = impl_oracle(ln, osan[i])
+            if (why or split_oracle(osan[i])[0] != osm[i]) and ln.startswith("lfget "):
+                o2, _c = vlib.run_lines_robust(asan, [ln, ln], env=env)
+                if not all(split_oracle(o)[0] == split_oracle(osan[i])[0] for o in o2):
+                    run.cov["flaky_not_reproduced"] = run.cov.get("flaky_not_reproduced", 0) + 1
+                    continue
             if why or split_oracle(osan[i])[0] != osm[i]:
                 nb += 1
                 if nb <= 3:
@@ -487,6 +494,19 @@ def main(run):
             if i % 41 == 3:
                 run.sample({"case": ln[:300], "impl": co[:160], "listing": want.decode("latin-1")[:120]})
             if why is None and mo == body:
+                continue
+            # a GET verdict is reported only if it reproduces: the case alone, in a fresh driver
+            # process, twice, failing the same way both times
+            reruns = []
+            for _ in range(2):
+                o2, _c = vlib.run_lines_robust(drv, [ln])
+                reruns.append(o2[0])
+            same = all((get_oracle(ln, o) is not None) == (why is not None) and split_oracle(o)[0] == body
+                       for o in reruns)
+            if not same:
+                run.cov["flaky_not_reproduced"] = run.cov.get("flaky_not_reproduced", 0) + 1
+                vlib.log("note (C20): GET case did not reproduce alone (first: %s; reruns: %s): %s"
+                         % (why or "model/impl differ", [get_oracle(ln, o) for o in reruns], ln[:120]))
                 continue
             kf = get_known(run, ln, co) if why else None
             if kf is not None and (mo == body or not (mode & 1)):
@@ -573,6 +593,7 @@ def main(run):
                               "case: %s\nprinted: %s\nread back: %s\nregistered+selected: %s\n" % (src, ln, got, exp),
                               tag="readback%d" % nrb)
     run.cov["readback_cases"] = len(plines)
+    run.cov.setdefault("flaky_not_reproduced", 0)
     run.cov["disagreements"] = nbad
     run.cov["windows_compared"] = nwin
     run.cov["corpus_cases"] = len(corpus)
